@@ -3,7 +3,7 @@
    stack_spiller.py / _stack_reorder tied by exact-output differential + EVM execution. *)
 From Coq Require Import ZArith List Bool.
 From Verif Require Import Base.PyInt C14S.PyList C14S.StackSpec C14S.StackSpecProofs C14S.GenStackModel C14S.TieStackModel
-  C14S.Spill C14S.SpillProofs C14S.SpillInv C14S.ReorderProofs C14S.ReorderFull C14S.CallProofs C14S.FrameProofs.
+  C14S.Spill C14S.SpillProofs C14S.SpillInv C14S.ReorderProofs C14S.ReorderFull C14S.PopProofs C14S.CleanProofs C14S.EmitProofs C14S.JoinProofs C14S.CallProofs C14S.FrameProofs.
 Import ListNotations.
 Open Scope Z_scope.
 
@@ -147,6 +147,99 @@ Theorem stack_reorder_full : forall ops a m s d,
     forall mm, mem_ok mm d -> exists mm', run new (view m, mm) = Some (view m', mm').
 Proof. exact stack_reorder_full_thm. Qed.
 Print Assumptions stack_reorder_full.
+
+(* ---- popmany, block-entry cleanup, _emit_input_operands, join blocks ---- *)
+(* popmany: for ANY stack map low ++ high (any height; `low` arbitrary: dead slots, duplicates) in which the operands to pop
+   that are present all lie in `high` (distinct items), popmany succeeds on both of its paths (contiguous run below the
+   top: one SWAP + POPs; general: SWAP-to-top + POP per operand, spill-assisted beyond 16), leaves `low` untouched
+   position by position, the new upper part is the old one minus the popped operands, the code realises the new map
+   and every live spilled word survives. *)
+Theorem popmany_correct : forall to_pop a low high s,
+  sp_inv s -> NoDup high -> NoDup to_pop ->
+  (forall x, In x to_pop -> In x (low ++ high) -> In x high) ->
+  exists new high' s',
+    popmany to_pop a (low ++ high) s = Ok (a ++ new, low ++ high', s') /\
+    forallb depth_ok new = true /\ sp_inv s' /\ (forall d, live_inv s d -> live_inv s' d) /\
+    NoDup high' /\ (forall y, In y high' <-> In y high /\ ~ In y to_pop) /\
+    forall mm, exists mm', run new (view (low ++ high), mm) = Some (view (low ++ high'), mm') /\
+                           forall d, live_inv s d -> mem_ok mm d -> mem_ok mm' d.
+Proof. exact popmany_correct_thm. Qed.
+Print Assumptions popmany_correct.
+
+(* clean_stack_from_cfg_in (the dead-prefix elision; defect ac6097c lived here).  Invariant: every item that is not a
+   _DeadStackItem is live at block entry and the retained prefix is never above a live item.  For ANY incoming stack map
+   whose dead slots form a prefix and whose other items are distinct members of the predecessor's output layout, ANY
+   layout / inputs / height / height promise: no CompilerPanic, no failed assertion, and afterwards (clean_post):
+   dead slots form a prefix, every other item is a live-in of the block, no live-in that was on the stack is lost, the
+   items stay distinct, the emitted code realises the map up to the contents of dead slots, live spilled words survive.
+   (The dead phi output of ac6097c violated the hypothesis "every non-dead item is in the layout": a theorem with this
+   hypothesis shows exactly which caller obligation was broken.) *)
+Theorem clean_correct : forall layout inputs bound promise a m s,
+  sp_inv s ->
+  dead_prefix_ok m false = true ->
+  (forall x, In x m -> alive x -> In x layout) ->
+  NoDup (filter aliveb m) ->
+  NoDup layout -> (forall x, In x layout -> alive x) -> (forall x, In x inputs -> alive x) ->
+  clean_post inputs a m s (clean_from_cfg_in layout inputs bound promise a m s).
+Proof. exact clean_correct_thm. Qed.
+Print Assumptions clean_correct.
+
+(* _emit_input_operands (not an invoke): for ANY stack map and operand list (labels, literals, distinct variables that
+   are on the stack at any depth or spilled) the new map is the old one followed, operand by operand, by: the label /
+   literal; for a variable one copy if it was restored from its slot and one (more) if it stays live (DUP, spill-assisted
+   beyond 16); nothing for a variable on the stack that dies here.  Restored operands leave the spilled dict, all other
+   spilled words are preserved, the code realises the map. *)
+Theorem emit_inputs_correct : forall ops live a m s d,
+  live_inv s d ->
+  NoDup (filter is_var ops) ->
+  (forall x, In x ops -> is_label x = true \/ is_lit x = true \/ is_var x = true) ->
+  (forall x, In x ops -> is_var x = true -> In x m \/ sp_lookup d x <> None) ->
+  exists new s' d',
+    emit_inputs false ops live a m s d = Ok (a ++ new, m ++ emitted ops live d, s', d') /\
+    forallb depth_ok new = true /\ live_inv s' d' /\
+    (forall p, In p d' -> In p d) /\
+    (forall x, In x ops -> is_var x = true -> sp_lookup d' x = None) /\
+    (forall x, ~ In x ops -> sp_lookup d' x = sp_lookup d x) /\
+    forall mm, mem_ok mm d -> exists mm',
+      run new (view m, mm) = Some (view (m ++ emitted ops live d), mm') /\ mem_ok mm' d'.
+Proof. exact emit_inputs_correct_thm. Qed.
+Print Assumptions emit_inputs_correct.
+
+(* join blocks: every predecessor reorders to the same target list; whatever its own stack map / spilled dict / spiller
+   state, the list ends up on top in that order (stack_reorder_full); maps of equal height that hold nothing else are equal *)
+Theorem join_layouts_agree : forall tgt a1 m1 s1 d1 a2 m2 s2 d2,
+  tgt <> [] -> NoDup tgt ->
+  live_inv s1 d1 -> (forall x, In x tgt -> In x m1 \/ sp_lookup d1 x <> None) ->
+  live_inv s2 d2 -> (forall x, In x tgt -> In x m2 \/ sp_lookup d2 x <> None) ->
+  exists new1 m1' s1' d1' c1 new2 m2' s2' d2' c2,
+    stack_reorder Z.eqb false tgt a1 m1 s1 d1 = Ok (a1 ++ new1, m1', s1', d1', c1) /\
+    stack_reorder Z.eqb false tgt a2 m2 s2 d2 = Ok (a2 ++ new2, m2', s2', d2', c2) /\
+    skipn (length m1' - length tgt) m1' = tgt /\ skipn (length m2' - length tgt) m2' = tgt /\
+    (length m1' = length m2' -> length m1' = length tgt -> m1' = m2') /\
+    (forall mm, mem_ok mm d1 -> exists mm', run new1 (view m1, mm) = Some (view m1', mm')) /\
+    (forall mm, mem_ok mm d2 -> exists mm', run new2 (view m2, mm) = Some (view m2', mm')).
+Proof. exact join_layouts_agree_thm. Qed.
+Print Assumptions join_layouts_agree.
+
+(* non-vacuity: the contiguous and the general path of popmany; a cleanup that retains a dead prefix (items 5, 9 are below
+   the deepest live-in 13 and become dead slots, 17 is popped); emit with a literal, a label, a live and a dying variable *)
+Example popmany_examples :
+  (match popmany [5; 9] [] [1; 5; 9; 13] (mkSp [] 4096 0) with
+   | Ok (a, m, _) => (length a =? 3)%nat && (if list_eq_dec Z.eq_dec m [1; 13] then true else false) | Err _ => false end) = true /\
+  (match popmany [5; 13] [] [1; 5; 9; 13; 17] (mkSp [] 4096 0) with
+   | Ok (a, m, _) => forallb depth_ok a && (if list_eq_dec Z.eq_dec m [1; 17; 9] then true else false) | Err _ => false end) = true.
+Proof. vm_compute. split; reflexivity. Qed.
+Example clean_example :
+  match clean_from_cfg_in [5; 9; 13; 17; 21] [13; 21] None (Some 7) [] [3; 5; 9; 13; 17; 21] (mkSp [] 4096 0) with
+  | Ok (a, m, _, b) => (if list_eq_dec Z.eq_dec m [3; 3; 3; 13; 21] then true else false) && (length a =? 2)%nat
+                       && (match b with Some 7 => true | _ => false end)
+  | Err _ => false end = true.
+Proof. vm_compute. reflexivity. Qed.
+Example emit_example :
+  match emit_inputs false [8; 6; 5; 9] [5] [] [5; 9] (mkSp [] 4096 0) [] with
+  | Ok (a, m, _, _) => (if list_eq_dec Z.eq_dec m [5; 9; 8; 6; 5] then true else false) && (length a =? 3)%nat
+  | Err _ => false end = true.
+Proof. vm_compute. reflexivity. Qed.
 
 (* ---- internal-call convention ---- *)
 (* frame rule: code that runs on a stack runs identically on any extension of it below: the callee cannot read or
